@@ -40,9 +40,9 @@ Lemma zassoc_tupd n k f t :
 Proof.
   unfold tupd. destruct (zassoc k t) as [a|] eqn:E.
   - destruct (Z.eqb_spec n k).
-    + subst. rewrite zassoc_zset_same, E. reflexivity.
+    + subst n. rewrite zassoc_zset_same. reflexivity.
     + apply zassoc_zset_other. congruence.
-  - destruct (Z.eqb_spec n k); [subst; rewrite E; reflexivity|reflexivity].
+  - destruct (Z.eqb_spec n k); [subst n; rewrite E; reflexivity|reflexivity].
 Qed.
 
 Definition child_of (t : tree) (n c : Z) : option pchild :=
@@ -99,12 +99,12 @@ Proof.
     destruct (Z.eqb_spec n (m_node m)); [|reflexivity]. subst n. cbn [andb].
     destruct (zassoc (m_node m) t) as [nd|] eqn:E; [|rewrite andb_false_r; reflexivity].
     cbn [andb]. rewrite andb_true_r.
-    destruct (zassoc (m_child m) (pn_children nd)) as [ch0|] eqn:E0; cbn [negb].
-    + rewrite andb_false_r. reflexivity.
-    + rewrite andb_true_r. unfold with_pchildren. cbn [pn_children]. rewrite zassoc_app.
+    destruct (zassoc (m_child m) (pn_children nd)) as [ch0|] eqn:E0.
+    + destruct (Z.eqb_spec c (m_child m)); [subst c; rewrite E0; reflexivity|reflexivity].
+    + unfold with_pchildren. cbn [pn_children]. rewrite zassoc_app.
       destruct (Z.eqb_spec c (m_child m)).
       * subst c. rewrite E0. simpl. rewrite Z.eqb_refl. reflexivity.
-      * destruct (zassoc c (pn_children nd)); [reflexivity|]. simpl.
+      * cbn [andb]. destruct (zassoc c (pn_children nd)); [reflexivity|]. simpl.
         destruct (Z.eqb_spec c (m_child m)); [contradiction|reflexivity].
   - (* set *)
     rewrite child_of_tupd. unfold child_of.
@@ -193,6 +193,28 @@ Section Corollaries.
     exists ch'. repeat split; congruence.
   Qed.
 
+  (* C04.2, one dispatcher call: an equality between WHOLE trees *)
+  Theorem logic_tree_meaning v g l g' r : cfg_is v (g_cf g) -> Inv orc g ->
+    logic orc clock g l = Ok (g', r) ->
+    P g' = meaning_line (safe_version orc) (gvalidate orc g) v (P g) l.
+  Proof. intros CI I E. destruct (logic_eff orc clock v g l g' r CI I E) as (_ & T & _). exact T. Qed.
+
+  (* some accepted messages alert although the tree does not change *)
+  Theorem alerting_without_change sv t m :
+    meaning sv KGatewayReady t m = t /\ alerting_k KGatewayReady t m = true /\ meaning sv KStreamReq t m = t /\ alerting_k KStreamReq t m = known t (m_node m) /\ (known_child t (m_node m) (m_child m) = true ->
+     value_of t (m_node m) (m_child m) (m_sub m) = Some (PS (m_payload m)) ->
+     meaning sv KSet t m = t /\ alerting_k KSet t m = true).
+  Proof.
+    split; [reflexivity|]. split; [reflexivity|]. split; [reflexivity|]. split; [reflexivity|].
+    intros H H0. split; [|exact H].
+    unfold meaning. unfold known_child in H. unfold value_of, child_of in H0.
+    destruct (zassoc (m_node m) t) as [nd|] eqn:E; [|discriminate].
+    destruct (zassoc (m_child m) (pn_children nd)) as [ch|] eqn:E0; [|discriminate].
+    eapply tupd_id; [exact E|]. cbn beta. rewrite E0.
+    rewrite (zset_same_id _ _ _ H0). destruct ch. cbn.
+    rewrite (zset_same_id _ _ _ E0). destruct nd. reflexivity.
+  Qed.
+
   (* C04.3 *)
   Theorem callback_exact v g l g' r : cfg_is v (g_cf g) -> Inv orc g ->
     logic orc clock g l = Ok (g', r) ->
@@ -219,13 +241,13 @@ Section Corollaries.
 
   Theorem callback_never_twice v g l g' r : cfg_is v (g_cf g) -> Inv orc g ->
     logic orc clock g l = Ok (g', r) ->
-    exists ext, g_log g' = g_log g ++ ext /\ (length (cbs ext) <= 1)%nat /\
+    exists ext, g_log g' = g_log g ++ ext /\ (List.length (cbs ext) <= 1)%nat /\
                 (cf_callback (g_cf g) = false -> cbs ext = []).
   Proof.
     intros CI I E. destruct (callback_exact v g l g' r CI I E) as (ext & L & B).
     exists ext. split; [exact L|]. rewrite B.
     destruct (alerted_line (gvalidate orc g) v (P g) l); [|split; [simpl; lia|reflexivity]].
-    destruct (cf_callback (g_cf g)); split; simpl; try lia; try reflexivity. discriminate.
+    destruct (cf_callback (g_cf g)); (split; [simpl; lia|]); [discriminate|reflexivity].
   Qed.
 
   (* exactly once for every accepted state-changing message *)
@@ -239,7 +261,7 @@ Section Corollaries.
     destruct (logic_eff orc clock v g l g' r CI I E) as (_ & T & _).
     destruct (alerted_line (gvalidate orc g) v (P g) l) as [m|] eqn:A.
     - apply alerted_line_spec in A as (D & V & AL). exists m, ext. repeat split; assumption.
-    - exfalso. apply N. rewrite <- T. apply (al_none_ml orc v g (P g) l). exact A.
+    - exfalso. apply N. rewrite T. apply (al_none_ml orc v g (P g) l). exact A.
   Qed.
 
   (* Gateway.alert, completely: nothing in it can fail, and it touches the log and the flag only *)
@@ -287,7 +309,7 @@ Section Corollaries.
     unfold ml, meaning_line in K'.
     destruct (decode l) as [m|]; [|congruence].
     destruct (gvalidate orc g m) eqn:V; [|congruence].
-    exists m. split; [reflexivity|]. split; [reflexivity|].
+    exists m. split; [reflexivity|]. split; [exact V|].
     apply zhas_keys in K'.
     destruct (keys_meaning (safe_version orc) (kind_of v m) (P g) m) as [Q|[(Kd & _ & Q)|(Kd & L & Q)]];
       rewrite Q in K'.
